@@ -3,6 +3,7 @@ package main
 // C08: the HTTP front door, driven in-process through the registered mux.
 
 import (
+	"bufio"
 	"bytes"
 	"context"
 	"encoding/base64"
@@ -15,10 +16,14 @@ import (
 	"net/http"
 	"net/http/httptest"
 	"net/netip"
+	"os"
+	"os/exec"
 	"path/filepath"
 	"regexp"
 	"strconv"
 	"strings"
+	"testing"
+	"time"
 
 	"github.com/tailscale/setec/server"
 	"github.com/tailscale/setec/types/api"
@@ -28,6 +33,7 @@ import (
 
 func init() {
 	commands["C08"] = runC08
+	commands["c08slow"] = c08SlowChild
 }
 
 type capSpec struct {
@@ -63,6 +69,10 @@ type reqSpec struct {
 type httpInput struct {
 	Setup []DBStep  `json:"setup"` // direct superuser calls before the session
 	Ops   []reqSpec `json:"ops"`
+	// SlowAuditMs > 0: the audit log device stalls this long (virtual time: the session runs in a synctest
+	// bubble in a child process) before it accepts a record; every request must still get its real answer,
+	// however long it takes - an answer sent while the call is still running misreports it
+	SlowAuditMs int `json:"slow_audit_ms,omitempty"`
 }
 
 type httpObs struct {
@@ -482,6 +492,14 @@ func (hs *httpSession) do(r reqSpec) httpObs {
 		hs.mux.ServeHTTP(rec, req)
 		o.Status = rec.Code
 	}()
+	env.sink.mu.Lock()
+	slow := env.sink.slow
+	env.sink.mu.Unlock()
+	if slow > 0 {
+		// (virtual time) whatever the handler may have left running behind its answer finishes now, so that
+		// the state observed next is the state this request produced
+		time.Sleep(3 * slow)
+	}
 	body := rec.Body.Bytes()
 	env.sink.mu.Lock()
 	env.sink.noteSave()
@@ -676,6 +694,11 @@ func runHTTPSession(work string, idx int, in httpInput, r *rand.Rand, length int
 	for _, st := range in.Setup {
 		hs.env.exec(super, st)
 	}
+	if in.SlowAuditMs > 0 {
+		hs.env.sink.mu.Lock()
+		hs.env.sink.slow = time.Duration(in.SlowAuditMs) * time.Millisecond
+		hs.env.sink.mu.Unlock()
+	}
 	var pre stepObs
 	hs.env.observeState(&pre)
 	var obs []httpObs
@@ -703,6 +726,10 @@ func runHTTPSession(work string, idx int, in httpInput, r *rand.Rand, length int
 			in.Ops = append(in.Ops, rq)
 			run(rq)
 		}
+	}
+	if in.SlowAuditMs > 0 {
+		// let anything the handlers left running behind their answers finish before the bubble ends
+		time.Sleep(time.Duration(in.SlowAuditMs)*time.Millisecond*3 + time.Hour)
 	}
 	steps := make([]string, len(in.Ops))
 	tags := map[string]bool{}
@@ -742,15 +769,102 @@ func genSetup(r *rand.Rand) []DBStep {
 	return out
 }
 
+// c08SlowChild runs sessions with a stalling audit device inside synctest bubbles (virtual time) and writes
+// their records; started by c08RunSlow as a child process because the testing entry point never returns.
+func c08SlowChild(o Opts) {
+	var specs []httpInput
+	if o.Replay != "" {
+		specs = readInputs[httpInput](o.Replay)
+	}
+	out := NewOut(o.Out)
+	inTest(func(t *testing.T) {
+		defer out.Close()
+		if len(specs) > 0 {
+			for i, in := range specs {
+				bubble(t, func(t *testing.T) { out.Emit(runHTTPSession(o.Work, 900+i, in, nil, 0)) })
+			}
+			return
+		}
+		for i := 0; i < 6; i++ {
+			r := NewRand(o.Seed, uint64(8800+i))
+			in := httpInput{Setup: genSetup(r), SlowAuditMs: []int{31000, 45000, 61000, 300000}[r.IntN(4)]}
+			bubble(t, func(t *testing.T) { out.Emit(runHTTPSession(o.Work, 900+i, in, r, 8+r.IntN(8))) })
+		}
+	})
+}
+
+// c08RunSlow starts the child and returns its records.
+func c08RunSlow(o Opts, specs []httpInput) []Record {
+	self, _ := os.Executable()
+	resFile := filepath.Join(o.Work, "c08slow_out.jsonl")
+	os.Remove(resFile)
+	args := []string{"c08slow", "-out", resFile, "-work", o.Work, "-seed", fmt.Sprint(o.Seed)}
+	if len(specs) > 0 {
+		specFile := filepath.Join(o.Work, "c08slow_spec.jsonl")
+		f, _ := os.Create(specFile)
+		for _, in := range specs {
+			b, _ := json.Marshal(in)
+			f.Write(append(b, '\n'))
+		}
+		f.Close()
+		args = append(args, "-replay", specFile)
+	}
+	ctx, cancel := context.WithTimeout(context.Background(), 90*time.Second)
+	defer cancel()
+	cmd := exec.CommandContext(ctx, self, args...)
+	var stderr bytes.Buffer
+	cmd.Stderr = &stderr
+	err := cmd.Run()
+	var recs []Record
+	if f, ferr := os.Open(resFile); ferr == nil {
+		sc := bufio.NewScanner(f)
+		sc.Buffer(make([]byte, 1<<20), 1<<28)
+		for sc.Scan() {
+			var rec Record
+			if json.Unmarshal(sc.Bytes(), &rec) == nil && rec.Kind != "" {
+				recs = append(recs, rec)
+			}
+		}
+		f.Close()
+	}
+	if err != nil || len(recs) == 0 {
+		msg := "the sessions with a stalling audit device did not finish"
+		if err != nil {
+			msg += ": " + err.Error()
+		}
+		if t := strings.TrimSpace(stderr.String()); t != "" {
+			if len(t) > 600 {
+				t = t[len(t)-600:]
+			}
+			msg += " (" + t + ")"
+		}
+		recs = append(recs, Record{Kind: "session", Key: "slow-audit-child", Input: httpInput{SlowAuditMs: 1}, Direct: &DirectVerdict{OK: false, What: msg}})
+	}
+	for i := range recs {
+		recs[i].Tags = append(recs[i].Tags, "stalling-audit-device")
+	}
+	return recs
+}
+
 func runC08(o Opts) {
 	out := NewOut(o.Out)
 	defer out.Close()
 	work := o.Work
 	idx := 0
 	if o.Replay != "" {
+		var slow []httpInput
 		for _, in := range readInputs[httpInput](o.Replay) {
+			if in.SlowAuditMs > 0 {
+				slow = append(slow, in)
+				continue
+			}
 			out.Emit(runHTTPSession(work, idx, in, nil, 0))
 			idx++
+		}
+		if len(slow) > 0 {
+			for _, rec := range c08RunSlow(o, slow) {
+				out.Emit(rec)
+			}
 		}
 		return
 	}
@@ -777,6 +891,11 @@ func runC08(o Opts) {
 		if len(self) < 4 && i%5 == 2 {
 			self = append(self, rec)
 		}
+	}
+	// a stalling audit device (virtual time, child process): every request still gets its real answer
+	for _, rec := range c08RunSlow(o, nil) {
+		rec.ID = out.n
+		out.Emit(rec)
 	}
 	// self-test: turn one rejected reply into a 200, one accepted 200 into a 404
 	for k, rec := range self {
